@@ -26,7 +26,11 @@ Skipping == bad # "" /\ Ev.k # "reset"
 \*  carries `hard`; only the checks of the properties that promise non-blocking operations count it as a verdict)
 EvBad == IF Ev.k \in {"ret", "final"} /\ "bij" \in DOMAIN Ev.x /\ ~Ev.x.bij THEN "InvBijection"
          ELSE IF Ev.k = "panic" THEN "NoPanic"
-         ELSE IF Ev.k = "final" /\ "hard" \in DOMAIN Ev.x /\ Ev.x.hard THEN "InvNoStall" ELSE ""
+         ELSE IF Ev.k = "final" /\ "hard" \in DOMAIN Ev.x /\ Ev.x.hard THEN "InvNoStall"
+         \* (containers holding instrumented payloads: a payload read while not alive / found overwritten, or destroyed more than once)
+         ELSE IF Ev.k = "final" /\ "anomalies" \in DOMAIN Ev.x /\ Len(Ev.x.anomalies) > 0 THEN "InvNoUseAfterFree"
+         ELSE IF Ev.k = "final" /\ "drops" \in DOMAIN Ev.x /\ (\E i \in 1..Len(Ev.x.drops) : Ev.x.drops[i][2] > 1) THEN "InvDestroyedAtMostOnce"
+         ELSE ""
 Worst(a, b) == IF a # "" THEN a ELSE b
 IsNopCall == Ev.k = "call" /\ Ev.x.op = "nop"
 IsNopRet  == Ev.k = "ret" /\ Ev.fn = "nop"
